@@ -135,6 +135,22 @@ Disagree(r, vm, vs) ==
 Candidates(r, vm) ==
     LET names == VarNames(r) IN
     {val \in [names -> 1..Len(Pool)] : Disagree(r, vm, VarsUnder(r, names, val))}
+(* ... and under every assignment of outcomes to up to three of its recording functions (truthy, falsy, not boolean, null,  *)
+(* failing either way): which operands run, and in which order, shows in the call log                                      *)
+FPool == <<Ok(VTrue), Ok(VFalse), Ok(VInt(BFromInt(1))), Ok(VNull), Err("other"), Err("absent")>>
+FuncNames3(r) == LET D == DOMAIN Fld(r, "funcs")
+                     k == IF Cardinality(D) < 3 THEN Cardinality(D) ELSE 3
+                 IN CHOOSE S \in SUBSET D : Cardinality(S) = k
+FuncsUnder(r, names, val) == [n \in DOMAIN Fld(r, "funcs") |-> IF n \in names THEN FPool[val[n]] ELSE r.funcs[n]]
+DisagreeF(r, vm, fs) ==
+    LET vs == Fld(r, "bind")
+        x == RunProgram(vm.blocks, [vars |-> vs, progs |-> Fld(vm, "pblocks"), funcs |-> fs])
+        e == Eval(r.tree, Env0(vs, Fld(r, "progs"), fs))
+    IN ~( \/ x.unk \/ HasDepth(x.log) \/ HasDepth(e.log)
+          \/ (Matches(x.out, e.o) /\ (e.lk => x.log = e.log)) )
+CandidatesF(r, vm) ==
+    LET names == FuncNames3(r) IN
+    IF names = {} THEN {} ELSE {val \in [names -> 1..Len(FPool)] : DisagreeF(r, vm, FuncsUnder(r, names, val))}
 
 ----------------------------------------------------------------------------
 Init == l = 1 /\ nbad = 0 /\ nsteps = 0 /\ ndrift = 0 /\ ncand = 0 /\ nvals = 0 /\ ncomp = 0
@@ -152,19 +168,22 @@ Step == /\ l <= Len(Rec)
                driftE == {i \in 1..Len(ev) : IsEnter(ev[i]) /\ EnterDrift(ev, i)}
                names == IF has THEN VarNames(r) ELSE {}
                cands == IF has /\ "blocks" \in DOMAIN vm THEN Candidates(r, vm) ELSE {}
+               fnames == IF has THEN FuncNames3(r) ELSE {}
+               candsF == IF has /\ "blocks" \in DOMAIN vm THEN CandidatesF(r, vm) ELSE {}
                cdrift == has /\ "blocks" \in DOMAIN vm /\ CompileDrift(r, vm)
            IN /\ nbad' = nbad + Cardinality(badS) + Cardinality(badE)
               /\ nsteps' = nsteps + Cardinality(steps)
               /\ ndrift' = ndrift + Cardinality(drift) + Cardinality(driftE) + (IF cdrift THEN 1 ELSE 0)
               /\ ncomp' = ncomp + (IF has /\ "blocks" \in DOMAIN vm /\ CanCompare(r) THEN 1 ELSE 0)
               /\ (cdrift => PrintT(<<"DRIFT", r.id, ToJson([instr |-> "compile", model |-> BC(F(r.tree))])>>))
-              /\ ncand' = ncand + Cardinality(cands)
-              /\ nvals' = nvals + (IF has THEN Len(Pool) ^ Cardinality(names) ELSE 0)
+              /\ ncand' = ncand + Cardinality(cands) + Cardinality(candsF)
+              /\ nvals' = nvals + (IF has THEN Len(Pool) ^ Cardinality(names) + (IF fnames = {} THEN 0 ELSE Len(FPool) ^ Cardinality(fnames)) ELSE 0)
               /\ \A i \in badS : PrintT(<<"VERDICT", r.id, StepBad(ev, i), ToJson([frame |-> ev[i].f, pc |-> ev[i].pc, depth |-> EnterOf(ev, ev[i].f).g])>>)
               /\ \A i \in badE : PrintT(<<"VERDICT", r.id, EnterBad(ev, i), ToJson([frame |-> ev[i].f, parent |-> ev[i].p, depth |-> ev[i].g])>>)
               /\ \A i \in drift : PrintT(<<"DRIFT", r.id, ToJson([frame |-> ev[i].f, pc |-> ev[i].pc, instr |-> EnterOf(ev, ev[i].f).code[ev[i].pc + 1].op])>>)
               /\ \A i \in driftE : PrintT(<<"DRIFT", r.id, ToJson([frame |-> ev[i].f, parent |-> ev[i].p, depth |-> ev[i].g, instr |-> "enter"])>>)
               /\ \A c \in cands : PrintT(<<"CAND", r.id, ToJson([n \in names |-> Pool[c[n]]])>>)
+              /\ \A c \in candsF : PrintT(<<"CANDF", r.id, ToJson([n \in fnames |-> FPool[c[n]]])>>)
         /\ l' = l + 1
 Done == /\ l = Len(Rec) + 1
         /\ PrintT(<<"SUMMARY", Len(Rec), nbad, nsteps, ndrift, ncand, nvals, ncomp>>)
